@@ -3,36 +3,29 @@ From Coq Require Import Bool List.
 Require Import WV.model.C08Display.
 Import ListNotations.
 
-(* computed display is the CSS 2.1 9.7 table for every value whose inner display type survives *)
+(* computed display is the CSS 2.1 9.7 table (with the later values: CSS Display 3 2.7) for every value the validator
+   can produce *)
 Lemma css21_9_7_table p f root v :
-  keeps_inner v = true -> display p f root v = css_display p f root v.
+  valid_disp v = true -> display p f root v = css_display p f root v.
 Proof.
-  destruct p, f, root, v as [|t|[] [] li]; simpl; intros H; try reflexivity; discriminate.
+  destruct p, f, root, v as [|t|[] [] []]; simpl; intros H; try reflexivity; discriminate.
 Qed.
 
 Example css21_9_7_table_ex :
   display PAbsolute FNone false (DPart Cell) = DPair OBlock Flow false /\
   display PStatic FLeft false (DPair OInline FlowRoot false) = DPair OBlock Flow false /\
   display PStatic FNone true (DPair OInline Flow true) = DPair OBlock Flow true /\
+  display PStatic FLeft false (DPair OInline Flex false) = DPair OBlock Flex false /\
+  display PFixed FNone false (DPair OInline ITable false) = DPair OBlock ITable false /\
   display PRelative FNone false (DPair OInline Flow false) = DPair OInline Flow false.
 Proof. repeat split. Qed.
 
-(* ... and it is not for inline-table / inline-flex / inline-grid: the inner display type is lost *)
-Lemma css21_9_7_table_refuted :
-  exists p f root v, display p f root v <> css_display p f root v /\
-                     box_class (display p f root v) = Some BlockBox /\ box_class (css_display p f root v) = Some FlexBox.
-Proof.
-  exists PStatic, FLeft, false, (DPair OInline Flex false). simpl. split; [discriminate|auto].
-Qed.
-
-(* the only values on which they differ *)
-Lemma css21_9_7_table_differs_only p f root v :
-  display p f root v <> css_display p f root v -> keeps_inner v = false /\ blockifies p f root = true.
-Proof.
-  intros H. destruct (keeps_inner v) eqn:E; [exfalso; apply H; apply css21_9_7_table; exact E|].
-  split; [reflexivity|]. destruct (blockifies p f root) eqn:B; [reflexivity|]. exfalso. apply H.
-  unfold display. rewrite B. destruct p, f, root, v as [|t|[] [] li]; simpl in *; try reflexivity; discriminate.
-Qed.
+(* in particular a floated / absolutely positioned / root inline-flex, inline-grid, inline-table box keeps its inner
+   display type and gets the flex / grid / table box class (repaired defect F153) *)
+Lemma blockified_keeps_inner p f root i :
+  blockifies p f root = true ->
+  box_class (display p f root (DPair OInline i false)) = box_class (DPair OBlock (match i with FlowRoot => Flow | _ => i end) false).
+Proof. unfold display. intros ->. destruct i; reflexivity. Qed.
 
 Lemma float_9_7 p f :
   compute_float p f = match p with PAbsolute | PFixed | PRunning => FNone | _ => f end.
@@ -42,7 +35,7 @@ Proof. reflexivity. Qed.
 Lemma blockified_is_block_level p f root v c :
   blockifies p f root = true -> box_class (display p f root v) = Some c -> block_level c = true.
 Proof.
-  unfold display. intros -> H. destruct v as [|t|[] [] li]; simpl in H; try discriminate; injection H as <-; reflexivity.
+  unfold display. intros -> H. destruct v as [|t|[] [] []]; simpl in H; try discriminate; injection H as <-; reflexivity.
 Qed.
 
 (* BOX_TYPE_FROM_DISPLAY: outer display type <-> level of the class, inner display type <-> kind of container *)
